@@ -68,6 +68,10 @@ _mk("C11", "C11 (coherence of the wiring): identical shape parameters for rvs / 
     "sibling agreement of call keywords, def-use order in the interval accumulator, CFG exit analysis of the dispatcher")
 _mk("C12", "C12 (algebra and guards): the three derived assignments of the linked setters normalise to the one relation 100·absolute = relative·system, remainder rule (definition, branch, targets), system-mass propagation to every component on the generable path, the two under-determined paths, range / consistency guards. Values over the configuration space are NOT decided.",
     "rational-monomial normal form of assignments, CFG dominance / loop-completion queries, guard-formula implication")
+_mk("C01", "C01 (printer/parser structure): the 13 printers' templates satisfy T(False) = erase(T(True)) with children by induction, flag threading, what the parser reads beyond defaults is printed, distribution keyword / parameter-order / printed-value-is-sampled-value agreement, mixture form agreement, no iteration over a definite non-iterable, bounded look-ahead, inserted descriptors satisfy the acceptance predicate. Object equality after re-parse is NOT decided.",
+    "printer-template extraction by partial evaluation, template erasure comparison, writer/reader table agreement, light type inference, guard-formula equivalence")
+_mk("C02", "C02 (four structural conditions): branch bookkeeping is driven by a left-to-right traversal of the text, every find/rfind slice bound is taken on the sliced string (package-wide) and following text stops at ')' and '[', weight / list-weight definitions at every exit of the descriptor constructor, bond-order table, descriptor numbering. The scanner's behaviour on arbitrary SMILES text is NOT decided.",
+    "information-flow shape of the stack updates, reaching-definition identity of slice operands, guard structure of attribute stores, finite evaluation of the bond-order ladder")
 
 NOT_APPLICABLE = {}
 for _i in range(1, 21):
